@@ -18,6 +18,7 @@ pub fn prop() -> Prop {
             Sub::enumerate("rgb_to_rgb", rgb_to_rgb),
             Sub::enumerate("gray", gray),
             Sub::enumerate("rgb_to_gray_binary", rgb_to_gray_binary),
+            Sub::enumerate("web_colors", web_colors_check),
         ],
     }
 }
@@ -299,4 +300,62 @@ fn rgb_to_gray_binary(ex: &Ex) {
     macro_rules! all { ($($f:ident),+) => { $( rgb_gray::<$f>(ex, base, full); base += 1 << 25; )+ }; }
     all!(Rgb332, Rgb444, Rgb555, Bgr555, Rgb565, Bgr565, Rgb666, Bgr666, Rgb888, Bgr888);
     let _ = base;
+}
+
+
+include!(concat!(env!("OUT_DIR"), "/web_colors.rs"));
+
+/// The named colours (`WebColors::CSS_*`, 8 RGB / BGR types) are the documented 8-bit values scaled with the
+/// same conversion: each constant equals `T::from(Rgb888::new(r, g, b))` and is the nearest value per channel.
+fn web_colors_check(ex: &Ex) {
+    use embedded_graphics::pixelcolor::{Bgr555, Bgr565, Bgr666, Bgr888, Rgb555, Rgb565, Rgb666, Rgb888, RgbColor};
+    ex.par(8, |i| {
+        let (mut n, mut nt) = (0u64, 0u64);
+        macro_rules! go {
+            ($t:ty) => {{
+                // the eight constants of RgbColor are the corners of the colour cube
+                let (mr, mg, mb) = (<$t>::MAX_R, <$t>::MAX_G, <$t>::MAX_B);
+                for (name, c, exp) in [
+                    ("BLACK", <$t>::BLACK, (0, 0, 0)),
+                    ("RED", <$t>::RED, (mr, 0, 0)),
+                    ("GREEN", <$t>::GREEN, (0, mg, 0)),
+                    ("BLUE", <$t>::BLUE, (0, 0, mb)),
+                    ("YELLOW", <$t>::YELLOW, (mr, mg, 0)),
+                    ("MAGENTA", <$t>::MAGENTA, (mr, 0, mb)),
+                    ("CYAN", <$t>::CYAN, (0, mg, mb)),
+                    ("WHITE", <$t>::WHITE, (mr, mg, mb)),
+                ] {
+                    n += 1;
+                    if (c.r(), c.g(), c.b()) != exp {
+                        ex.fail(i * 1000 + 900 + n, String::from("rgb_constant"), format!("{}::{} = {:?}, expected channels {:?}", stringify!($t), name, c, exp), String::from(name));
+                    }
+                }
+                for (name, (r, g, b), c) in web_colors::<$t>() {
+                    n += 1;
+                    let conv = <$t>::from(Rgb888::new(r, g, b));
+                    if c != conv {
+                        ex.fail(i * 1000 + n, String::from("web_color:differs_from_conversion"), format!("{}::{} = {:?}, the conversion of Rgb888({}, {}, {}) is {:?}", stringify!($t), name, c, r, g, b, conv), String::from(name));
+                        continue;
+                    }
+                    let near = |v8: u8, v: u8, max: u8| 2 * (v as i64 * 255 - v8 as i64 * max as i64).abs() <= 255;
+                    if !(near(r, c.r(), <$t>::MAX_R) && near(g, c.g(), <$t>::MAX_G) && near(b, c.b(), <$t>::MAX_B)) {
+                        ex.fail(i * 1000 + n, String::from("web_color:not_nearest"), format!("{}::{} = {:?} is not the nearest value to ({}, {}, {}) / 255 in every channel", stringify!($t), name, c, r, g, b), String::from(name));
+                    }
+                    nt += u64::from(![0u8, 255].contains(&r) || ![0u8, 255].contains(&g) || ![0u8, 255].contains(&b));
+                }
+            }};
+        }
+        match i {
+            0 => go!(Rgb555),
+            1 => go!(Rgb565),
+            2 => go!(Rgb666),
+            3 => go!(Rgb888),
+            4 => go!(Bgr555),
+            5 => go!(Bgr565),
+            6 => go!(Bgr666),
+            _ => go!(Bgr888),
+        }
+        ex.add(n, nt);
+        ex.sample(|| format!("colour type {}: {} named colours", i, n));
+    });
 }
